@@ -71,9 +71,9 @@ def tag_rule(model: Model, rep, rule: str, only=None, skip=None):
             cons = f"{name}:replace({d.base},t=...):{f}"
             if v != "INHERITED":
                 rep.ok(rule, cons, v)
-            elif not d.escapes:
-                rep.ok(rule, cons, "temporary mesh that never leaves the "
-                       "function")
+            elif not d.escapes_field[f]:
+                rep.ok(rule, cons, "temporary mesh: its tags never leave "
+                       "the function")
             else:
                 what = "boundaries" if f == "_boundaries" else "subdomains"
                 rep.fail(rule, d.fn.path, name, cons,
